@@ -53,7 +53,7 @@ fn body(p: P) {
         }));
     }
     if p.race_stop {
-        stop(&store);
+        stop(&store, 0);
         for h in hs {
             let _ = h.join();
         }
@@ -61,7 +61,7 @@ fn body(p: P) {
         for h in hs {
             let _ = h.join();
         }
-        stop(&store);
+        stop(&store, 0);
     }
     get_state(&store, 99);
 }
@@ -178,7 +178,8 @@ pub fn scenarios(tier: Tier) -> Vec<Scenario> {
                     }
                 }
             }
-            add(P { producers: 2, k: 1, reducers: 3, keep: 0b010, keep_odd: 0, eff: EFF_TASK, cap: 1, extra: 1, race_stop: false }, 2);
+            add(P { producers: 1, k: 2, reducers: 3, keep: 0b010, keep_odd: 0b101, eff: EFF_TASK, cap: 1, extra: 1, race_stop: false }, 2);
+            add(P { producers: 2, k: 1, reducers: 3, keep: 0b010, keep_odd: 0, eff: EFF_TASK, cap: 1, extra: 1, race_stop: false }, 1);
             add(P { producers: 2, k: 1, reducers: 2, keep: 0b11, keep_odd: 0, eff: EFF_NONE, cap: 2, extra: 2, race_stop: true }, 2);
             add(P { producers: 1, k: 2, reducers: 1, keep: 1, keep_odd: 1, eff: EFF_ACTION, cap: 2, extra: 1, race_stop: false }, 2);
         }
